@@ -23,6 +23,7 @@ import GrcVerif.StaticRules
 import GrcVerif.Octabox
 import GrcVerif.Args
 import GrcVerif.Check01
+import GrcVerif.Engine
 import GrcVerif.Generated.ArgConsts
 namespace Grc.Driver
 
@@ -361,6 +362,19 @@ def cmdC01 (st : State) : Except String (List String) := do
         ri := ri + 1
   if out.isEmpty then return [s!"ok rules={nRules} attrValues={nSets} itemConstraints={nCons}", "done"]
   return out ++ ["done"]
+
+/-- C01 (engine level): shape a glyph string with the reference interpreter of the IR's rules. -/
+def cmdShape (st : State) (gs : List String) : List String :=
+  match gs.mapM (·.toNat?) with
+  | none => ["bad-op"]
+  | some gids =>
+    let tbl := st.ir.gattrValues
+    let p : Eng.Prog := { ir := st.ir, nuser := st.ir.numUser,
+                          gvals := fun g a => match tbl.find? (·.1 == g) with | some (_, vs) => vs.getD a 0 | none => 0 }
+    let (out, stalled) := Eng.shape p gids
+    let item (s : Eng.Slot) : String :=
+      "[" ++ toString s.gid ++ "," ++ toString s.before ++ "," ++ toString s.after ++ ",[" ++ ",".intercalate (s.user.map toString) ++ "]," ++ (if s.assocOk then "1" else "0") ++ "]"
+    [(if stalled then "stalled " else "") ++ "[" ++ ",".intercalate (out.map item) ++ "]"]
 
 def _root_.Grc.RuleIR.effective (r : RuleIR) : Bool :=
   r.items.any fun it => it.mod ∧ (it.inCls.isNone ∨ it.out.isSome ∨ !it.attrs.isEmpty)
@@ -852,6 +866,7 @@ def step (st : State) (toks : List String) : IO (State × List String) := do
     return (st', ls)
   | ["linemap", path, token] => return (st, ← cmdLineMap path token)
   | ["c10"] => return (st, cmdC10 st)
+  | "shape" :: gs => return (st, cmdShape st gs)
   | ["c01"] =>
     match cmdC01 st with
     | .ok ls => return (st, ls)
